@@ -657,8 +657,22 @@ start:
 						// which means that executing any Extract from a type
 						// switch implies that the switched-over value wasn't a
 						// nil interface value.
-						s.setOuter(tuple.Tag, NeverNil)
 						typ := tuple.Conds[idx]
+						if !types.Identical(v.Type(), typ) {
+							// The clause lists several types ('case *T, *U:',
+							// 'case nil, error:'), so the bound variable is the
+							// switched-over interface value itself, not the
+							// value stored in it. Unlike single-type clauses,
+							// such clauses do have an Extract for 'nil'.
+							if b, ok := typ.(*types.Basic); ok && b.Kind() == types.UntypedNil {
+								s.set(v, ValueNilness{AlwaysNil, AlwaysNil})
+							} else {
+								s.setOuter(tuple.Tag, NeverNil)
+								s.set(v, s.get(tuple.Tag))
+							}
+							continue
+						}
+						s.setOuter(tuple.Tag, NeverNil)
 						if types.IsInterface(typ) && !typeparams.IsTypeParam(typ) {
 							// Succesfully type asserting to an interface type
 							// always produces a non-nil interface value.
